@@ -6,7 +6,7 @@
       id  T|L  parent|-  count  mediabox|-  cropbox|-  resources|-  kid kid …
     Output fields are those of harness/src/modes/pagetree.rs. *)
 From Coq Require Import String Ascii.
-From PdfV Require Import Base.Prelude Gen.Generated PageTree.Model.
+From PdfV Require Import Base.Prelude Gen.Generated PageTree.Model PageTree.Spec.
 
 Definition field (fs : list bytes) (i : nat) : bytes := nth i fs [].
 
@@ -103,3 +103,48 @@ Definition run_page_iter (fs : list bytes) : res (list bytes) :=
   let fuel := S (length st) in
   do rt <- load_root st fuel (N_of_dec (field fs 1));
   collect (map ident (pages st fuel rt)).
+
+(** ** the specification object itself, executable (mode page_spec): the tree the standard sees in the store,
+    its [leaves], and [first_some] along the ancestors — compared on every run with the python oracle and with
+    the implementation, so that the object the theorems talk about is the one the code is judged against *)
+Fixpoint all_some {A} (l : list (option A)) : option (list A) :=
+  match l with
+  | [] => Some []
+  | Some a :: t => option_map (cons a) (all_some t)
+  | None :: _ => None
+  end.
+
+Fixpoint tree_of (st : store) (fuel : nat) (id : N) : option tree :=
+  match fuel with
+  | O => None
+  | S f =>
+    match lookup st id with
+    | None => None
+    | Some o =>
+      match o_kind o with
+      | KPage => Some (Leaf id (o_attrs o))
+      | KPages => option_map (Node id (o_attrs o) (o_count o)) (all_some (map (tree_of st f) (o_kids o)))
+      end
+    end
+  end.
+
+Definition spec_describe (l : list (N * attrs * list attrs)) (i : N) : res bytes :=
+  match nth_error l (N.to_nat i) with
+  | Some (id, a, anc) =>
+    do m <- tok (spec_media_box (a :: anc));
+    do c <- tok (spec_crop_box (a :: anc));
+    do s <- tok (spec_resources (a :: anc));
+    Ok (80 :: dec_of_N id ++ [32] ++ m ++ [32] ++ c ++ [32] ++ s)
+  | None => Ok (33 :: ename EPageOutOfBounds)
+  end.
+
+Definition run_page_spec (fs : list bytes) : res (list bytes) :=
+  let st := parse_store (field fs 0) in
+  match tree_of st (S (length st)) (N_of_dec (field fs 1)) with
+  | None => Err EOther
+  | Some t =>
+    let nq := N.to_nat (N_of_dec (field fs 2)) in
+    let extra := map N_of_dec (filter nonempty (split_on 44 (field fs 3))) in
+    do qs <- collect (map (spec_describe (leaves t)) (seqN 0 nq ++ extra));
+    Ok (dec_of_N (lenN (leaves t)) :: qs)
+  end.
